@@ -659,6 +659,27 @@ class RfaMetaUnit(Unit):
                         c["y2"][-1] = c["y2"][0] + 3.0
                     c["k"] = rng.choice([0, len(c["y"]) - 1, c["k"]])
                 cases.append(c)
+        # two exactly equal consecutive averages (a plateau) far from the average that is changed: locality for the adaptive
+        # strategies, where a tie takes the "no transition window" branches
+        for s in ("linadapt", "expadapt"):
+            made = 0
+            while made < 4:
+                m = 7
+                c = base.mk(rng, s, m=m, n=rng.choice([2, 4, 8]))
+                ys_ = [float(v) for v in rng.sample(range(-8, 9), m)]
+                j = rng.choice([3, 4])
+                ys_[j + 1] = ys_[j]
+                c["y"] = ys_
+                c["x"] = gens.sorted_x(rng, m, rng.choice(["uniform", "int", "ratio"]))
+                c["ya"], c["yb"] = rng.choice([2.0, 0.5, -1.0]), float(rng.randint(-4, 4))
+                c["xc"], c["xd"] = rng.choice([2.0, 0.5]), float(rng.randint(-4, 4))
+                c["k"], c["delta"] = 0, float(rng.choice([1, -1, 2]))
+                c["y2"] = gens.values(rng, m, "int")
+                yk_ = list(ys_); yk_[0] += c["delta"]
+                if not adaptive_windows_exact(c)[2] or not adaptive_windows_exact(dict(c, y=yk_))[2]:
+                    continue
+                cases.append(c)
+                made += 1
         # pairs of series with the same length, first and last abscissa and n but other interior abscissae, run one after the other:
         # nothing of the first recreation (an oversampled axis remembered per (n, length, end points), say) may reach the second
         for s in ("pc", "linfixed", "expfixed", "cubic"):
